@@ -236,6 +236,7 @@ fn session(sc: &ScenarioB, opts_keep: usize) -> (Vec<Found>, Vec<StepRecord>, St
             stats.searches += 1;
             return (found, steps, stats, Some(i));
         }
+        seam::with_sim(|s| s.note(format!("{} | {} -> {} ({} nodes, {} polls)", game.to_fen(), step.go.line(), best_s, rec.max_nodes, rec.polls)));
         let is_legal = legal.contains(&best_s);
         if !is_legal {
             add_found(
@@ -253,15 +254,17 @@ fn session(sc: &ScenarioB, opts_keep: usize) -> (Vec<Found>, Vec<StepRecord>, St
             let sig = format!("{class} {}", game.to_fen());
             add_found(&mut found, &class, format!("search #{i}: {msg}"), sig);
         }
-        if rec.first_stop.is_some() && (rec.calls_after_stop > 0 || rec.nodes_after_stop > 0) {
+        let after_answer = rec.first_stop.is_some() && (rec.calls_after_stop > 0 || rec.nodes_after_stop > 0);
+        let after_flag = rec.forced_at.is_some() && rec.calls_after_forced > 0;
+        if after_answer || after_flag {
+            let at = rec.first_stop.map(|p| p.0).or(rec.forced_at.map(|p| p.0)).unwrap_or(0);
             add_found(
                 &mut found,
                 "continued-after-stop",
                 format!(
-                    "search #{i} examined {} further positions ({} further limit checks) after its poll #{} answered stop ({}, `{}`)",
+                    "search #{i} went on examining positions ({} further nodes, {} further limit checks) after poll #{at} had observed the stop request / expired limit ({}, `{}`)",
                     rec.nodes_after_stop,
-                    rec.calls_after_stop,
-                    rec.first_stop.unwrap().0,
+                    rec.calls_after_stop.max(rec.calls_after_forced),
                     game.to_fen(),
                     step.go.line()
                 ),
@@ -375,7 +378,7 @@ pub fn run_b(sc: &ScenarioB, opts: &BOptions) -> OutcomeB {
             }
         }
     }
-    out.stats.sim_ns = sim.now_ns - 1_000_000_000;
+    out.stats.sim_ns = sim.now_ns - 1_000_000_000 - sim.faults.skipped_ns;
     out.stats.faults = sim.faults.clone();
     out
 }
